@@ -702,6 +702,20 @@ fn msg_strings(rng: &mut ChaCha20Rng, key: &Key, every: usize) -> Vec<Vec<u8>> {
                 t[b.len()] = 0x80;
                 v.push(t);
             }
+            if len >= bytes + 2 && b.len() <= bytes {
+                // several non-zero bytes beyond the plaintext width that cancel under xor / under a wrapping sum
+                // (what an accumulate-then-test rewrite of the over-length check would let through)
+                for pat in [&[1u8, 1][..], &[5, 0, 5], &[1, 2, 3], &[1, 255], &[0x80, 0x80], &[0xff, 0xff, 0xff, 0xff]] {
+                    if bytes + pat.len() <= len {
+                        let mut t = s.clone();
+                        t[bytes..bytes + pat.len()].copy_from_slice(pat);
+                        v.push(t);
+                        let mut t = s.clone();
+                        t[len - pat.len()..len].copy_from_slice(pat);
+                        v.push(t);
+                    }
+                }
+            }
         }
     }
     v.sort();
